@@ -112,6 +112,45 @@ def wrapper_struct(agent):
     return {"cls": type(agent).__name__, "norm_obs_keys": getattr(agent, "norm_obs_keys", None), "epsilon": eps}
 
 
+def prelu_config(family):
+    """net_config whose hidden and encoder-output activations are PReLU - the one entry of the activation table
+    (agilerl/utils/evolvable_networks.get_activation) that owns a learnable parameter - for encoder and head"""
+    head = {"hidden_size": [6], "activation": "PReLU"}
+    if family == "image":
+        enc = {"channel_size": [2], "kernel_size": [3], "stride_size": [1], "activation": "PReLU"}
+    elif family == "dict":
+        enc = {"latent_dim": 8, "activation": "PReLU"}
+    else:
+        enc = {"hidden_size": [6], "activation": "PReLU", "output_activation": "PReLU"}
+    return {"encoder_config": enc, "head_config": head}
+
+
+def all_tensor_ptrs(agent):
+    """storage census that does not go through evo.slots: every parameter and buffer reachable through
+    named_parameters() / named_buffers() of every network attribute (activation modules included), every tensor of every
+    optimizer state.  {name: data_ptr}"""
+    import torch
+    a = evo.unwrap(agent)
+    out = {}
+    for n in evo.net_names(a):
+        obj = getattr(a, n)
+        for mi, m in enumerate(obj if isinstance(obj, (list, tuple)) else [obj]):
+            m = getattr(m, "_orig_mod", m)
+            for k, t in torch.nn.Module.named_parameters(m, remove_duplicate=False):
+                if t.numel() > 0:
+                    out[f"{n}[{mi}].{k}"] = t.data_ptr()
+            for k, t in torch.nn.Module.named_buffers(m, remove_duplicate=False):
+                if t.numel() > 0:
+                    out[f"{n}[{mi}].{k}#buffer"] = t.data_ptr()
+    for oc in a.registry.optimizers:
+        for oi, o in enumerate(evo._opt_list(getattr(a, oc.name))):
+            for pi, (p_, st) in enumerate(o.state.items()):
+                for k, v in st.items():
+                    if isinstance(v, torch.Tensor) and v.numel() > 0:
+                        out[f"{oc.name}[{oi}].state[{pi}].{k}"] = v.data_ptr()
+    return out
+
+
 def _coq_str(s):
     assert all(32 <= ord(c) < 127 and c != '"' for c in s), s
     return f'(s_of "{s}"%string)'
@@ -198,6 +237,17 @@ class C07(vlib.Driver):
         statistics move through get_action; architecture mutation, save, both load paths, greedy actions of saved and restored agent"""
         return [["act", 0, 1], ["act", 0, 2], ["act", 1, 3], ["mutate", 0, "arch", 4], ["act", 0, 5], ["save", 0], ["load", 0], ["load_into", 0, 1],
                 ["act", 0, 6], ["act", 2, 6, 0], ["act", 0, 7], ["act", 2, 7, 0], ["mutate", 2, "hp", 8, "lr"], ["save", 2], ["load_into", 1, 0]]
+
+    @staticmethod
+    def oneside_ops():
+        """after a restore only ONE of the agents is trained for a few steps: the others (the saved original, the other restored
+        copy) must not change - not even a parameter hidden in an activation module; then the lock-step comparison"""
+        return [["learn", 0, 1], ["learn", 0, 2], ["learn", 1, 3], ["save", 0], ["load", 0], ["load_into", 0, 1],
+                ["learn", 2, 4], ["learn", 2, 5], ["learn", 2, 6],            # only the agent returned by Algo.load trains
+                ["learn", 1, 7], ["learn", 1, 8],                             # only the agent restored in place trains
+                ["learn", 0, 9], ["act", 0, 10],                              # only the saved original trains / acts
+                ["save", 0], ["load", 1], ["act", 0, 11], ["act", 3, 11, 0],
+                ["learn", 0, 12], ["learn", 3, 12, 0], ["learn", 0, 13], ["learn", 3, 13, 0], ["learn", 0, 14], ["learn", 3, 14, 0]]
 
     @staticmethod
     def bound_ops():
@@ -295,11 +345,13 @@ class C07(vlib.Driver):
 
         only = os.environ.get("VERIF_C07_ONLY")      # developer shortcut for the mutation self-test (never registered)
         for algo in algos:
-            for share in ([False, True] if algo in evo.SHARE_CAPABLE else [False]):
+            # quick: the share-capable algorithms run this history with shared encoders only (their un-shared form is covered by
+            # the fresh-optimizer / pre-mutation / one-sided histories below)
+            for share in (([False, True] if tier != "quick" else [True]) if algo in evo.SHARE_CAPABLE else [False]):
                 add(algo, "vector", share, "partial", 0, 1, ops=self.boundary_ops())
         add("DQN", "vector", False, "partial", 0, 2, wrapper=True, ops=self.boundary_ops())
         for algo in algos:
-            add(algo, "vector", algo == "PPO", "partial", 0, 3, ops=self.fresh_optimizer_ops())
+            add(algo, "vector", algo == "TD3", "partial", 0, 3, ops=self.fresh_optimizer_ops())
         for n_, (algo, fam, share, k1, k2, g1, g2, src, chain) in enumerate(self.premutation_matrix(tier)):
             add(algo, fam, share, ["partial", "none", "full"][n_ % 3], 0, 4 + n_ % 3, ops=self.premutation_ops(k1, k2, g1, g2, src, chain))
         # configurations beyond the default encoders: heterogeneous multi-agent observation spaces, caller-ordered agent ids,
@@ -314,7 +366,18 @@ class C07(vlib.Driver):
         add("DQN", "dict", False, "partial", 0, 17, wrapper={"epsilon": 0.001}, ops=P("act", "arch", False, True, 1, False))
         add("PPO", "vector", False, "partial", 0, 18, wrapper=True, ops=self.wrapper_act_ops())
         add("CQN", "vector", False, "full", 0, 24, ops=self.bound_ops())
+        # activations that own a learnable parameter (PReLU) in encoder and head; one-sided training after the restore
+        add("DQN", "vector", False, "prelu", 0, 28, ops=self.oneside_ops())
+        add("PPO", "image", True, "prelu", 0, 29, ops=self.oneside_ops())
+        add("DDPG", "discrete", False, "prelu", 0, 30, ops=P("param", "arch", False, True, 1, False))
+        add("MATD3", "vector", False, "prelu", 0, 31, ops=self.oneside_ops())
+        add("NeuralUCB", "vector", False, "partial", 0, 32, ops=self.oneside_ops())
         if tier != "quick":
+            for n_, algo in enumerate(algos):
+                fam = ["vector", "image", "discrete", "dict"][n_ % 4]
+                add(algo, fam, algo in evo.SHARE_CAPABLE and n_ % 2 == 0, "prelu", 0, 33,
+                    ops=self.oneside_ops() if n_ % 2 == 0 else P("act", "arch", True, False, n_ % 2, True))
+                add(algo, "vector", False, "full", 0, 34, ops=self.oneside_ops())
             add("DQN", "image", False, "full", 0, 25, ops=self.bound_ops())
             add("PPO", "vector", True, "full", 0, 26, ops=self.bound_ops())
             add("MADDPG", "vector", False, "full", 0, 27, ops=self.bound_ops())
@@ -336,7 +399,7 @@ class C07(vlib.Driver):
         if only == "boundary":
             return cases
         if tier == "quick":
-            for algo in rng.sample(algos, 5):       # the deterministic histories above cover every algorithm; 5 of them also get a seeded one
+            for algo in rng.sample(algos, 3):       # the deterministic histories above cover every algorithm; 3 of them also get a seeded one
                 add(algo, "vector", False, rng.choice(["partial", "full", "none"]), 5, rng.randrange(100))
             for algo, fam in ((rng.choice(["DQN", "RainbowDQN"]), "image"), (rng.choice(["PPO", "IPPO"]), "dict")):
                 add(algo, fam, False, "partial", 4, rng.randrange(100))
@@ -361,7 +424,8 @@ class C07(vlib.Driver):
         spec = {k: case[k] for k in ("algo", "family", "share", "netcfg", "seed")}
         if case.get("ids"):
             spec["ids"] = case["ids"]          # multi-agent: caller-chosen (unsorted) agent id order
-        shared_cfg = None if case["netcfg"] == "custom" else evo.net_config_for(case["netcfg"], case["family"])
+        shared_cfg = (None if case["netcfg"] == "custom" else prelu_config(case["family"]) if case["netcfg"] == "prelu"
+                      else evo.net_config_for(case["netcfg"], case["family"]))
         hp = evo.hp_config_for(case["algo"])
         orig_space = evo.obs_space
         if case.get("hetero"):
@@ -448,6 +512,7 @@ class C07(vlib.Driver):
             for name, groups in opt_groups(member).items():
                 st["opts"][name]["groups"] = json.loads(json.dumps(groups, default=str))
             st["wrapper"] = wrapper_struct(member)
+            st["ptrs"] = all_tensor_ptrs(member)
             extra = deep_wrapper_slots(member, {tuple(s_[2]) for s_ in ag["slots"]})
             ag = dict(ag, slots=list(ag["slots"]) + extra)
             for d in st["nets"].values():
@@ -541,6 +606,18 @@ class C07(vlib.Driver):
                         return
                     seen.setdefault(p, (ai, s[0]))
 
+        def shared_census(st, what, path):
+            """no parameter / buffer / optimizer-state tensor of one agent has the storage of a tensor of another agent"""
+            seen = {}
+            for ai, ag in enumerate(st):
+                for name, ptr in (ag["struct"].get("ptrs") or {}).items():
+                    if ptr in seen and seen[ptr][0] != ai:
+                        cls = "ost" if ".state[" in name else "buf" if name.endswith("#buffer") else "param"
+                        out.append(Violation("fresh", sig("shared-storage", path, cls),
+                                             f"{what}: tensor {name} of agent #{ai} has the storage of {seen[ptr][1]} of agent #{seen[ptr][0]}"))
+                        return
+                    seen.setdefault(ptr, (ai, name))
+
         def unchanged(b, a, j, what, path):
             nb = [(s[0], s[3]) for s in b["slots"]]
             na = [(s[0], s[3]) for s in a["slots"]]
@@ -590,9 +667,14 @@ class C07(vlib.Driver):
                         break
                 self._equivalent(out, sig, path, saved[op[1]], after[op[2]], what)
             elif k in ("learn", "score", "mutate", "act"):
-                pass        # independence inside the evolutionary loop is C01's subject
+                # an agent that came out of a file and the agent it was saved from are independent: training / mutating one
+                # of them (or anybody else) changes nobody else
+                for j in range(len(before)):
+                    if j != op[1] and not unchanged(before[j], after[j], j, what, self._origin(case, t, op[1]) or "loop"):
+                        break
             if k in ("load", "load_into"):
                 shared_ptrs(after, what, path)
+                shared_census(after, what, path)
             if len(out) > 8:
                 break
             if k == "act" and rec.get("pair"):
@@ -633,7 +715,7 @@ class C07(vlib.Driver):
 
     @staticmethod
     def _stable(st):
-        d = {k: v for k, v in st.items() if k not in ("nets", "opts", "scalars")}
+        d = {k: v for k, v in st.items() if k not in ("nets", "opts", "scalars", "ptrs")}
         d["nets"] = {n: {k: v for k, v in x.items() if k != "param_ids"} for n, x in st["nets"].items()}
         d["opts"] = {n: {k: v for k, v in x.items() if k not in ("ref_ptrs", "wrapper_lr")} for n, x in st["opts"].items()}
         return json.dumps(d, sort_keys=True, default=str)
